@@ -4,11 +4,23 @@
    Env: GRAPH (one graph, json line), RUNS (ndjson of runs on that graph), OUT. *)
 EXTENDS CheckerObs, Json, IOUtils, TLC
 
-G    == ndJsonDeserialize(IOEnv.GRAPH)[1]
-Runs == ndJsonDeserialize(IOEnv.RUNS)
+(* the inputs are read once and kept in TLC registers, like Reach(G) below *)
+ASSUME TLCSet(3, ndJsonDeserialize(IOEnv.GRAPH)[1]) /\ TLCSet(4, ndJsonDeserialize(IOEnv.RUNS))
+G    == TLCGet(3)
+Runs == TLCGet(4)
 
-ReachG  == Reach(G)
-LayersG == Layers(G)
+(* Reach(G) and Layers(G) are computed ONCE and kept in TLC registers (a zero-arity definition over IOEnv is not a
+   constant for TLC: it would be re-evaluated at every use, 16 s each on a 60 000-state graph) *)
+ASSUME TLCSet(1, Reach(G)) /\ TLCSet(2, Layers(G))
+ReachG  == TLCGet(1)
+LayersG == TLCGet(2)
+ViolatedG(p)  == \E s \in ReachG : ~SatAt(p, s)
+WitnessedG(p) == \E s \in ReachG : SatAt(p, s)
+MinWitnessDepthG(p) ==
+  LET ls == LayersG
+      good(s) == IF p.kind = "always" THEN ~SatAt(p, s) ELSE SatAt(p, s)
+      ds == {d \in 1..Len(ls) : \E s \in ls[d] : good(s)}
+  IN  IF ds = {} THEN 0 ELSE CHOOSE d \in ds : \A e \in ds : d <= e
 
 BigChecks(run) ==
   LET cfg == run.cfg
@@ -23,10 +35,11 @@ BigChecks(run) ==
   [ joined |-> [a |-> TRUE, c |-> d.joined /\ ~d.spawn_panicked],
     \* every visit is shown a real step: its parent is an evaluated state one level up and node is a successor of it
     edges |-> [a |-> Len(vis) > 0,
-               c |-> \A i \in DOMAIN vis :
-                        IF vis[i].parent = 0 THEN vis[i].node \in InitB(G) /\ vis[i].depth = 1
-                        ELSE /\ vis[i].node \in SuccB(G, vis[i].parent)
-                             /\ vis[i].parent \in vn],
+               \* (vn is mentioned once, outside the quantifier: TLC re-evaluates a LET definition at every use)
+               c |-> /\ \A i \in DOMAIN vis :
+                          IF vis[i].parent = 0 THEN vis[i].node \in InitB(G) /\ vis[i].depth = 1
+                          ELSE vis[i].node \in SuccB(G, vis[i].parent)
+                     /\ ({vis[i].parent : i \in DOMAIN vis} \ {0}) \subseteq vn],
     subset |-> [a |-> Len(vis) > 0, c |-> vn \subseteq ReachG],
     once |-> [a |-> Len(vis) > 0, c |-> Cardinality(vn) = Len(vis)],
     complete |-> [a |-> comp /\ ~cfg.no_visitor,
@@ -38,8 +51,8 @@ BigChecks(run) ==
     verdicts |-> [a |-> comp,
                   c |-> comp => \A i \in DOMAIN G.props :
                            LET p == G.props[i] IN
-                           CASE p.kind = "always"    -> disc(p.name) <=> Violated(G, p)
-                             [] p.kind = "sometimes" -> disc(p.name) <=> Witnessed(G, p)
+                           CASE p.kind = "always"    -> disc(p.name) <=> ViolatedG(p)
+                             [] p.kind = "sometimes" -> disc(p.name) <=> WitnessedG(p)
                              [] OTHER -> TRUE],
     stop_reason |-> [a |-> normal /\ Exhaustive(cfg) /\ cfg.target_depth = 0 /\ vn # ReachG, c |-> (normal /\ Exhaustive(cfg) /\ cfg.target_depth = 0 /\ vn # ReachG) => stop],
     \* every state is evaluated exactly once also when the visitor is off: the model counts evaluations itself
@@ -64,7 +77,7 @@ BigChecks(run) ==
                   c |-> (cfg.strategy = "bfs" /\ cfg.threads = 1) =>
                           \A i \in DOMAIN d.discoveries :
                              LET x == d.discoveries[i]  p == PropNamed(G, x.name) IN
-                             p.kind \in {"always", "sometimes"} => Len(x.states) = MinWitnessDepth(G, p)],
+                             p.kind \in {"always", "sometimes"} => Len(x.states) = MinWitnessDepthG(p)],
     \* BFS with one thread still visits by depth
     bfs_depth |-> [a |-> cfg.strategy = "bfs" /\ cfg.threads = 1,
                    c |-> (cfg.strategy = "bfs" /\ cfg.threads = 1) => \A i \in DOMAIN vis : i > 1 => vis[i - 1].depth <= vis[i].depth]
